@@ -41,6 +41,17 @@ def r11_visibility(toks, log):
             j = i + 1
             if j < len(toks) and toks[j].text == "(" and toks[j + 1].text in ("crate", "super", "self", "in"):
                 j = match_close(toks, j) + 1
+            # only functions lose their visibility (so that their contracts may mention private fields);
+            # types, fields, variants and consts keep plain `pub` (restricted forms become `pub`)
+            k = j
+            while k < len(toks) and toks[k].text in ("const", "async", "unsafe", "extern") or (k < len(toks) and toks[k].kind == "str"):
+                k += 1
+            if not (k < len(toks) and toks[k].text == "fn"):
+                if j > i + 1:
+                    log.add("R11", t, render(toks[i:j]))
+                out.append(t)
+                i = j
+                continue
             log.add("R11", t, render(toks[i:j]))
             if j < len(toks):
                 toks[j] = toks[j].clone(ws=t.ws)
